@@ -145,7 +145,7 @@ func (e *Engine) checkContract(con *Contract) (*checkedContract, error) {
 	}
 	for _, cl := range con.clauses {
 		pos := basePos
-		if cl.kind == "invariant" || cl.kind == "decreases" || cl.kind == "hint" {
+		if cl.kind == "invariant" || cl.kind == "decreases" || cl.kind == "hint" || cl.kind == "step" {
 			if cl.loop < 0 || cl.loop >= len(ci.loops) {
 				return nil, fmt.Errorf("%s: %s has %d loops, clause names loop %d", cl.pos, con.name, len(ci.loops), cl.loop)
 			}
@@ -164,6 +164,11 @@ func (e *Engine) checkContract(con *Contract) (*checkedContract, error) {
 			cl.callPos = cpos
 			pos = cpos
 			cl.callExtra = callResultParams(body, pkg.TypesInfo, pkg.Types, cpos)
+		} else if cl.kind == "at" && cl.at == "return" {
+			// checked at every return site, before the postconditions; locals are visible
+			pos = body.Rbrace
+			last := body.List[len(body.List)-1]
+			pos = last.Pos()
 		} else if cl.kind == "at" {
 			found := token.NoPos
 			ast.Inspect(body, func(n ast.Node) bool {
@@ -203,7 +208,7 @@ func (e *Engine) checkContract(con *Contract) (*checkedContract, error) {
 		if len(cl.callExtra) > 0 {
 			xp = append(append([]string{}, extraParams...), cl.callExtra...)
 		}
-		if cl.kind == "invariant" || cl.kind == "decreases" {
+		if cl.kind == "invariant" || cl.kind == "decreases" || cl.kind == "step" {
 			if _, isRange := ci.loops[cl.loop].(*ast.RangeStmt); isRange {
 				xp = append(append([]string{}, extraParams...), "rangeindex int")
 			}
@@ -769,6 +774,14 @@ func (env *Env) call(x *ast.CallExpr) Val {
 		return u.bigConst(constant.StringVal(tv.Value))
 	case "mathWrap64":
 		return u.mathWrap64(env.eval(x.Args[0]).(*Term))
+	case "prev":
+		// value at the loop header of the current iteration (in `loop k step` clauses)
+		if env.li == nil || env.u.loopCtxs[env.li] == nil || env.u.loopCtxs[env.li].header == nil {
+			panic(u.errf("contract: prev() is only available in loop step clauses"))
+		}
+		penv := *env
+		penv.st = env.u.loopCtxs[env.li].header
+		return penv.eval(x.Args[0])
 	case "entry":
 		// value at loop entry (before the first iteration)
 		if env.li == nil || env.u.loopCtxs[env.li] == nil && env.loopEntry == nil {
